@@ -1,3 +1,6 @@
 import Rbql.Model.Basic
 import Rbql.Model.Csv
 import Rbql.Model.ReaderPy
+import Rbql.Proofs.Find
+import Rbql.Proofs.Split
+import Rbql.Theorems.C11
